@@ -210,7 +210,9 @@ Proof.
     split; [split; [exact Wk|split; [exact Hst3|split; assumption]]|]. bsimpl.
     split; [intros E; contradiction|intros _; exact Len]. }
   destruct (match b_stack b with (_, e) :: _ => b_pos b =? e | [] => false end) eqn:Ee.
-  { replace (upd_cur b bcEOF (b_null b) (b_len b)) with (upd_state (upd_cur b bcEOF (b_null b) (b_len b)) (b_state b))
+  { destruct (match b_stack b with (k, _) :: _ => (k =? bcStruct) && (b_state b =? bssBeforeValue) | [] => false end) eqn:Ed;
+      [apply ospec_err; exact (wle_refl b A)|].
+    replace (upd_cur b bcEOF (b_null b) (b_len b)) with (upd_state (upd_cur b bcEOF (b_null b) (b_len b)) (b_state b))
       by (destruct b; reflexivity).
     apply Kq; try (unfold bcEOF, bcBVM, bcFieldID; lia); auto; discriminate. }
   destruct (b_state b =? bssBeforeFieldID) eqn:Ef.
